@@ -71,6 +71,13 @@ def run(ctx):
     for i in range(100 if quick else 3000):
         nk = rng.choice((6, 12))
         lru_lines.append(lru_script(random_lru_ops(rng, rng.randint(5, 60), nk), i % 2, nk))
+    # SplayI: the top-down splay, splay_insert, splay_erase as the code has them; every history over a bounded key set
+    SPI = "CONSTANTS Keys = {%s}\n MaxMult = %d\n Dup = %s\n Mutation = \"%s\"\nSPECIFICATION Spec\nINVARIANTS Contents SizeRight Results\nCHECK_DEADLOCK FALSE\n"
+    for (ks, mm, dup) in ([("1, 2, 3", 3, "TRUE"), ("1, 2, 3, 4, 5", 1, "FALSE")] if quick else [("1, 2, 3", 4, "TRUE"), ("1, 2, 3, 4", 3, "TRUE"), ("1, 2, 3, 4, 5, 6, 7", 1, "FALSE")]):
+        tlc_mc(ctx, SD, "SplayI", "mc_splayi_run.cfg", workers=8, coverage=False, timeout=3000, xmx="8g", cfg_text=SPI % (ks, mm, dup, "none"))
+    r = tlc_mc(ctx, SD, "SplayI", "mc_splayi_neg.cfg", workers=8, coverage=False, timeout=3000, expect_ok=False, cfg_text=SPI % ("1, 2, 3", 3, "TRUE", "erase_keeps_right"))
+    if r["ok"] or "Invariant Contents is violated" not in r["out"]:
+        raise InternalError("negative self-test: SplayI with the original splay_erase (x->right = t->right) does not violate Contents")
     # Splay histories
     alpha = [(o, k) for o in ("insert", "erase", "exists", "find") for k in (1, 2, 3)] + [("clear", 0)]
     D = 4 if quick else 5
@@ -116,6 +123,17 @@ def run(ctx):
             e = json.loads(ex[min(at, len(ex) - 1)])
             return ("%s/%s/%s" % (drv, e.get("variant", e.get("flavour")), e.get("e")),
                     "%s: call %s returned / left a state the abstract container does not allow" % (drv, e.get("e")))
+        if drv == "drv_splay":
+            # implementation level first: the node structure after every call vs. SplayI (set and multiset separately: Dup is a constant of the model);
+            # what it rejects but Trace_Splay accepts is DRIFT
+            groups = {}
+            for ex in split_executions([x for x in lines_t if x]):
+                groups.setdefault('"dup":true' in ex[0], []).extend(ex)
+            for dup, evs in sorted(groups.items()):
+                gf = ctx.path("splay_%s.ndjson" % ("multiset" if dup else "set"))
+                open(gf, "w").write("\n".join(evs) + "\n")
+                validate_traces(ctx, SD, "Trace_SplayI", "Trace_SplayI.cfg", gf, classify, property_level=(SD, mod, mod + ".cfg"))
+            continue
         validate_traces(ctx, SD, mod, mod + ".cfg", tr, classify)
     ctx.assumptions += ["pop() is only offered on a non-empty cache (documented precondition)",
                         "LRU recency order is observed by draining a copy with pop()",
